@@ -15,4 +15,4 @@ for d in sorted(glob.glob('/verif/seeded/C*-*')):
     suite=m.get('existing_suite') or {}
     st='passes' if suite and not suite.get('packages_failing_every_run') else ('FAILS: %s'%suite.get('packages_failing_every_run') if suite else 'n/a')
     needs=(m.get('needs_to_manifest') or '')[:220].replace('|','/')
-    print("| %s | %s | %s | %s / %s | %s | %s |"%(m['id'],desc.replace('|','/'),needs,m.get('demo_fails_with_mutant'),m.get('demo_passes_without'),st,", ".join(m.get('caught_by') or []) or '**none**'))
+    print("| %s | %s | %s | %s / %s | %s | %s |"%(m['id'],desc.replace('|','/'),needs,m.get('demo_fails_with_mutant'),m.get('demo_passes_without'),st,", ".join(m.get('caught_by') or []) or (", ".join(m.get('caught_by_thorough') or []) + " (thorough tier only)" if m.get('caught_by_thorough') else '**none**')))
